@@ -9,6 +9,8 @@
 (*   FailDecode    output already opened (and truncated) when reading the  *)
 (*                 input raises -> an EMPTY file stays; ERROR record       *)
 (*   FailOutIsDir  refused before anything is opened; ERROR record         *)
+(*   FailOutDirBlocked  makedirs of the parent fails inside the per-file   *)
+(*                 try; ERROR record; nothing written                      *)
 (* main(), the single-file form (file list = one pair) and                 *)
 (* FileAnonymizer.anonymize_file are the same machine with a one-element   *)
 (* list (the last one reports by raising instead of logging).              *)
@@ -59,8 +61,14 @@ Finish(c) == /\ pc[c] = "loop" /\ order[c] = << >>
              /\ pc' = [pc EXCEPT ![c] = "done"] /\ UNCHANGED <<rvars, order>>
 
 MPick == RPick /\ UNCHANGED <<order, pc>>
+\* parents are made inside the per-file try: a sub-directory that cannot be created
+\* fails each file below it on its own, one ERROR record per file, the others go on
+FailOutDirBlocked(c, k) ==
+  /\ Cur(c, k) /\ Fault(c, k) = "blocked"
+  /\ UNCHANGED outT
+  /\ rep' = [rep EXCEPT ![c] = @ \cup {k}] /\ Pop(c, k)
 MNext == MPick \/ \E c \in Copy : \/ Walk(c) \/ Finish(c)
-                         \/ \E k \in scn.files : ProcessOk(c, k) \/ FailDecode(c, k) \/ FailOutIsDir(c, k)
+                         \/ \E k \in scn.files : ProcessOk(c, k) \/ FailDecode(c, k) \/ FailOutIsDir(c, k) \/ FailOutDirBlocked(c, k)
 MSpec == MInit /\ [][MNext]_mvars
 MDone == \A c \in Copy : pc[c] = "done"
 MDoneImpliesDone == MDone => Done
